@@ -73,7 +73,7 @@ func init() {
 func init() {
 	addProp(&propDef{
 		ID: "C03", Check: "term", Level: "exploration", CrashIsViolation: true, HangSecs: 10,
-		Rule: "(i) every string up to the length bound over 20 byte-class representatives as spec; (ii) every sequence of lexemes up to the bound joined three ways; (iii) every grammar-derived spec up to the size bound x every argv up to the length bound x every subset of {a,o} backed by a set environment variable; each (spec, argv, env) case is executed in a supervised worker process (64 MiB stack limit, hang watchdog) and its outcome class judged; a worker that dies or stops making progress is attributed to the single case it was executing through an mmap'ed state record, and that case is re-run alone three times before it is reported; non-trivial = the spec is rejected at a position > 0, or compiled and the command line was accepted or rejected",
+		Rule: "(i) every string up to the length bound over 22 class representatives (20 bytes and 2 multi-byte characters whose low code-point byte is an ASCII letter) as spec; (ii) every sequence of lexemes up to the bound joined three ways; (iii) every grammar-derived spec up to the size bound x every argv up to the length bound x every subset of {a,o} backed by a set environment variable; each (spec, argv, env) case is executed in a supervised worker process (64 MiB stack limit, hang watchdog) and its outcome class judged; a worker that dies or stops making progress is attributed to the single case it was executing through an mmap'ed state record, and that case is re-run alone three times before it is reported; non-trivial = the spec is rejected at a position > 0, or compiled and the command line was accepted or rejected",
 		Assumptions: []string{"liveness oracle: no progress on one case for 10 s (normal cost 3-30 microseconds), confirmed by three isolated re-runs with a 30 s deadline; stack exhaustion is detected by the Go runtime (debug.SetMaxStack 64 MiB), not by time"},
 		Budget:      [2]int{1500, 7200},
 	})
@@ -112,7 +112,7 @@ func init() {
 func init() {
 	addProp(&propDef{
 		ID: "C08", Check: "syntax", Level: "exploration",
-		Rule: "(i) every non-empty string up to the length bound over 20 byte-class representatives, (ii) every sequence of lexemes up to the bound joined by nothing / a space / a tab, each against two declaration sets so that every name occurs declared and undeclared; reference = leftmost-longest tokenizer of the lexical conventions (DESIGN.md 4.5) + generic Earley recogniser over the EBNF given as data + the two context conditions; judged: compiled <=> well-formed, error position within the first offending lexeme and <= len(spec), no hook runs on rejection, tokens of an accepted spec partition its non-blank bytes; non-trivial = the string lexes to >= 2 tokens or is rejected at a position > 0",
+		Rule: "(i) every non-empty string up to the length bound over 22 class representatives (20 bytes and 2 multi-byte characters whose low code-point byte is an ASCII letter), (ii) every sequence of lexemes up to the bound joined by nothing / a space / a tab, each against two declaration sets so that every name occurs declared and undeclared; reference = leftmost-longest tokenizer of the lexical conventions (DESIGN.md 4.5) + generic Earley recogniser over the EBNF given as data + the two context conditions; judged: compiled <=> well-formed, error position within the first offending lexeme and <= len(spec), no hook runs on rejection, tokens of an accepted spec partition its non-blank bytes; non-trivial = the string lexes to >= 2 tokens or is rejected at a position > 0",
 		Assumptions: []string{"lexical conventions not fixed by the documentation are taken from the code and listed in DESIGN.md 4.5 (e.g. `--` is the end-of-options token only before a space or the end of the string)"},
 	})
 }
@@ -142,7 +142,7 @@ func init() {
 }
 
 func init() {
-	vrule := "product of: the seven built-in types x {option with spec `[-x...]`, argument with spec `[X...]`} x default {zero, non-zero} x environment lists of 0, 1 or 2 variables each {unset, empty, valid, invalid, (multi) list with blanks, list with an invalid element} x command lines giving the value 0, 1 or 2 times in every spelling; plus, on the same application instance, a second Run whose command line gives one value (it must replace whatever the first parse left); every case with the item on the application and on a lazily initialised sub-command; all cases distinct by construction; non-trivial = at least two of {command line, environment, default} offer a value"
+	vrule := "product of: the seven built-in types x {option with spec `[-x...]`, argument with spec `[X...]`} x {value-returning, *Ptr} declaration forms x default {zero, non-zero} x environment lists of 0, 1 or 2 variables each {unset, empty, valid, invalid, (multi) list with blanks, list with an invalid element} x command lines giving the value 0, 1 or 2 times in every spelling; plus, on the same application instance, a second Run whose command line gives one value (it must replace whatever the first parse left); every case with the item on the application and on a lazily initialised sub-command; all cases distinct by construction; non-trivial = at least two of {command line, environment, default} offer a value"
 	addProp(&propDef{
 		ID: "C06", Check: "values", Level: "exploration",
 		Rule:        vrule + "; judged: the variable read inside the Action equals the 10-line reference (command-line values if any - multi: exactly those, single: the last; else the first non-empty valid variable; else the default)",
@@ -205,7 +205,7 @@ func init() {
 			{Name: "sched", Build: "instr", Params: "mode=sched"},
 			{Name: "race", Build: "race", Params: "mode=race", Shards: 1, Env: []string{"GOMAXPROCS=16"}},
 		},
-		Rule: "(a) histories: every ordered sequence of <= 3 of 12 application templates (chosen to collide: same spec text with different declarations, same option names, the same environment variable read with different values, a rejection, a help request under ExitOnError, hooks with Exit, nested repetitions, implicit spec, two rejections caused by unconvertible values with other containers already collected) is built-and-run in one fresh process and every outcome compared with the template's outcome alone in a fresh process; (b) interleavings: the library sources are instrumented (overlay) with a scheduling point at every function entry, every loop head and before/after every statement mentioning a package-level variable; 2 (thorough: 3) templates run as cooperative threads; all schedules up to the preemption bound are enumerated depth-first (dense pass: every point; focused pass: tagged points only, higher bound), every execution on fresh objects; oracle per execution: each thread ends exactly as it does alone under the same instrumentation (result, bound values, exit codes and the text that thread itself wrote to the output stream), and no package-level variable is written by one thread and touched by another (conflict monitor); states = scheduling points visited, transitions = executions (schedules) run; traces validated = schedules executed on the real code (all of them); (c) the same bodies free-running in 16 goroutines under -race; non-trivial = executions with at least one preemption, histories of length >= 2",
+		Rule: "(a) histories: every ordered sequence of <= 3 of 14 application templates (chosen to collide: same spec text with different declarations, same option names, the same environment variable read with different values, a rejection, a help request under ExitOnError, hooks with Exit, nested repetitions, implicit spec, two rejections caused by unconvertible values with other containers already collected) is built-and-run in one fresh process and every outcome compared with the template's outcome alone in a fresh process; (b) interleavings: the library sources are instrumented (overlay) with a scheduling point at every function entry, every loop head and before/after every statement mentioning a package-level variable; 2 (thorough: 3) templates run as cooperative threads; all schedules up to the preemption bound are enumerated depth-first (dense pass: every point; focused pass: tagged points only, higher bound), every execution on fresh objects; oracle per execution: each thread ends exactly as it does alone under the same instrumentation (result, bound values, exit codes and the text that thread itself wrote to the output stream), and no package-level variable is written by one thread and touched by another (conflict monitor); states = scheduling points visited, transitions = executions (schedules) run; traces validated = schedules executed on the real code (all of them); (c) the same bodies free-running in 16 goroutines under -race; non-trivial = executions with at least one preemption, histories of length >= 2",
 		Assumptions: []string{"interleavings are explored at the granularity of the inserted scheduling points; Go memory-model effects below that granularity are left to the free-running -race pass, which is not exhaustive", "a report of the race detector is taken as proof (no confirmation replay)", "concurrent applications share the package-level output stream by design: outputs are compared in histories only"},
 	})
 }
